@@ -127,6 +127,7 @@ func VEmit() {
 	})
 	vrt.Go("errors", func() {
 		for {
+			vrt.Pace("errors")
 			err, ok := <-exx
 			if !ok {
 				return
